@@ -84,6 +84,10 @@ type Ctx struct {
 	caseSeq      uint64 // bumped at the start of each guarded call (watchdog)
 	externalWait int32
 	curInput     atomic.Value
+
+	// stream rotation (see streamTurn)
+	pass, ord, rotStart, nStreams int
+	inCase, firstSeen             bool
 }
 
 // maxClasses caps the class signatures one worker keeps in memory.
@@ -133,13 +137,29 @@ func (c *Ctx) Floor(counter string, n int64) { c.res.Floors[counter] = n }
 func (c *Ctx) Exhaustive(name string, size int64) { c.res.Exhaustive[name] = size }
 
 // Eval counts n evaluated cases.
-func (c *Ctx) Eval(n int) { c.res.Evaluations += int64(n) }
+func (c *Ctx) Eval(n int) {
+	if c.counting() {
+		c.res.Evaluations += int64(n)
+	}
+}
+
+// counting: code of the run function outside any stream is executed once per pass; it counts in the first
+// executing pass only.
+func (c *Ctx) counting() bool { return c.inCase || c.pass == 1 }
 
 // Count bumps a named counter.
-func (c *Ctx) Count(name string) { c.res.Counters[name]++ }
+func (c *Ctx) Count(name string) {
+	if c.counting() {
+		c.res.Counters[name]++
+	}
+}
 
 // CountN adds to a named counter.
-func (c *Ctx) CountN(name string, n int) { c.res.Counters[name] += int64(n) }
+func (c *Ctx) CountN(name string, n int) {
+	if c.counting() {
+		c.res.Counters[name] += int64(n)
+	}
+}
 
 // Class registers the signature of a non-trivial case class; it returns true
 // when the class was not seen before in this worker.
@@ -230,6 +250,9 @@ func (c *Ctx) Guard(entry string, witness func() interface{}, f func()) (ok bool
 // indices of its shard. Every case gets a PRNG that depends only on
 // (seed, property, stream name, index).
 func (c *Ctx) Stream(name string, total int, f func(i int, r *gen.Rand)) {
+	if !c.streamTurn(name) {
+		return
+	}
 	c.res.Streams[name] = int64(total)
 	h := gen.HashString(c.Prop + "/" + name)
 	for i := c.Shard; i < total; i += c.NShards {
@@ -251,6 +274,9 @@ func (c *Ctx) Stream(name string, total int, f func(i int, r *gen.Rand)) {
 // StreamSeedless is Stream for exhaustive enumerations: the PRNG handed to the
 // case does not depend on VERIF_SEED.
 func (c *Ctx) StreamSeedless(name string, total int, f func(i int, r *gen.Rand)) {
+	if !c.streamTurn(name) {
+		return
+	}
 	c.res.Streams[name] = int64(total)
 	h := gen.HashString(c.Prop + "/" + name)
 	for i := c.Shard; i < total; i += c.NShards {
@@ -269,16 +295,43 @@ func (c *Ctx) StreamSeedless(name string, total int, f func(i int, r *gen.Rand))
 	}
 }
 
+// streamTurn implements the rotation of the stream order: the run function is executed three times per worker
+// process - a dry pass that only counts the streams, a pass that runs the streams from this shard's starting
+// ordinal on, and a pass that runs the ones before it. Every stream of a worker is therefore the first thing
+// some worker process asks of the library (state that the library builds on first use is built by a different
+// operation in each process). Streams named "cold-start..." keep their place at the very beginning.
+func (c *Ctx) streamTurn(name string) bool {
+	ord := c.ord
+	c.ord++
+	cold := strings.HasPrefix(name, "cold-start")
+	turn := false
+	switch c.pass {
+	case 0:
+		c.nStreams++
+	case 1:
+		turn = cold || ord >= c.rotStart
+	default:
+		turn = !cold && ord < c.rotStart
+	}
+	if turn && !c.firstSeen && !c.replay {
+		c.firstSeen = true
+		c.res.Counters["process.first_stream/"+name]++
+	}
+	return turn
+}
+
 func (c *Ctx) runCase(name string, i int, r *gen.Rand, f func(i int, r *gen.Rand)) {
 	atomic.AddUint64(&c.caseSeq, 1)
 	if c.curMap != nil {
 		c.persistCur(nil)
 	}
+	c.inCase = true
 	defer func() {
 		if rec := recover(); rec != nil {
 			site := PanicSite(rec)
 			c.Fail("panic: "+name+" > "+site, fmt.Sprintf("case %s[%d] panicked: %v", name, i, rec), nil)
 		}
+		c.inCase = false
 	}()
 	f(i, r)
 }
@@ -456,7 +509,24 @@ func Main(prop string, run func(c *Ctx)) {
 			}
 		}
 	}
-	run(c)
+	if c.replay {
+		c.pass = 1
+		run(c)
+	} else {
+		c.pass = 0
+		run(c)
+		if c.nStreams > 0 {
+			c.rotStart = c.Shard % c.nStreams
+		}
+		c.res.Counters = map[string]int64{}
+		c.res.Evaluations = 0
+		c.pass, c.ord = 1, 0
+		run(c)
+		if c.rotStart > 0 {
+			c.pass, c.ord = 2, 0
+			run(c)
+		}
+	}
 	c.finish()
 }
 
